@@ -39,7 +39,8 @@ def basics_case(n, rng):
           'FOR i <- 1 TO %d' % (2 * n + 1), '  x <- x - 1', '  OUTPUT x', 'NEXT i']
     return Case(gen.join(p), meta=dict(gen='enum-basics', n=n))
 
-CHANNELS = ['assign-name', 'assign-var', 'assign-arith', 'byval', 'return', 'element', 'field', 'byref', 'implicit']
+CHANNELS = ['assign-name', 'assign-var', 'assign-arith', 'byval', 'return', 'element', 'field', 'byref', 'implicit',
+            'func-byval', 'func-byval-name', 'func-byval-arith', 'func-byref', 'return-var', 'return-arith', 'pointer', 'deref', 'getrecord', 'record-copy']
 def cross_case(n1, n2, channel, rng):
     a = names(n1, 'a'); b = names(n2, 'b')
     p = ['TYPE A = (%s)' % ', '.join(a), 'TYPE B = (%s)' % ', '.join(b), 'DECLARE x : A', 'DECLARE y : B',
@@ -53,6 +54,20 @@ def cross_case(n1, n2, channel, rng):
         p = p[:2] + ['PROCEDURE p(BYREF v : A)', '  OUTPUT v', 'ENDPROCEDURE'] + p[2:] + ['CALL p(y)']
     elif channel == 'return':
         p = p[:2] + ['FUNCTION f() RETURNS A', '  RETURN %s' % b[0], 'ENDFUNCTION'] + p[2:] + ['x <- f()']
+    elif channel in ('func-byval', 'func-byval-name', 'func-byval-arith', 'func-byref'):
+        mode = 'BYREF' if channel == 'func-byref' else 'BYVAL'
+        arg = {'func-byval': 'y', 'func-byval-name': b[-1], 'func-byval-arith': 'y + 1', 'func-byref': 'y'}[channel]
+        p = p[:2] + ['FUNCTION g(%s v : A) RETURNS INTEGER' % mode, '  OUTPUT "stored ", v, " next ", v + 1', '  RETURN 1', 'ENDFUNCTION'] + p[2:] + ['OUTPUT g(x)', 'OUTPUT g(%s)' % arg]
+    elif channel in ('return-var', 'return-arith'):
+        p = p[:2] + ['FUNCTION f(w : B) RETURNS A', '  RETURN %s' % ('w' if channel == 'return-var' else 'w + 1'), 'ENDFUNCTION'] + p[2:] + ['x <- f(y)']
+    elif channel == 'pointer':
+        p = p[:2] + ['TYPE PA = ^A'] + p[2:] + ['DECLARE pa : PA', 'pa <- ^x', 'OUTPUT pa^', 'pa <- ^y']
+    elif channel == 'deref':
+        p = p[:2] + ['TYPE PA = ^A'] + p[2:] + ['DECLARE pa : PA', 'pa <- ^x', 'pa^ <- y', 'OUTPUT pa^']
+    elif channel == 'getrecord':
+        p += ['OPENFILE "e.dat" FOR RANDOM', 'PUTRECORD "e.dat", y', 'SEEK "e.dat", 1', 'GETRECORD "e.dat", x']
+    elif channel == 'record-copy':
+        p = p[:2] + ['TYPE RA', '  DECLARE f : A', 'ENDTYPE', 'TYPE RB', '  DECLARE f : B', 'ENDTYPE'] + p[2:] + ['DECLARE ra : RA', 'DECLARE rb : RB', 'rb.f <- y', 'ra <- rb', 'OUTPUT ra.f']
     elif channel == 'element':
         p += ['DECLARE arr : ARRAY[1:2] OF A', 'arr[1] <- y']
     elif channel == 'field':
@@ -85,6 +100,8 @@ def generate(tier, rng):
     # REPL echo form
     cases.append(Case(mode='repl', stdin=gen.join(['TYPE Season = (spring, summer)', 'DECLARE s : Season', 's', 's <- summer', 's', 'summer + 1', 's = summer']),
                       meta=dict(gen='enum-echo')))
+    for _ in range(25 if tier == 'quick' else 500):      # cross-feature programs (gen.rich_program): every data kind, call mode and file kind mixed
+        cases.append(Case(gen.rich_program(rng), limits=dict(steps=30000), stdin=b'typed\n', meta=dict(gen='rich', sample=False)))
     return cases
 
 def intrinsic(case, io, ia):
